@@ -688,3 +688,8 @@ class C03(Check):
                                   body_bytes=len(obs['data']), body_head=obs['data'][:80].hex(), shape=obs['shape'],
                                   complaints=obs['complaints'], escaped=obs['escaped']),
                     input=data['input'])
+
+
+# the composed stream (one real application, one request, against App.serve of Model/App.lean)
+from harness import applib as _applib  # noqa: E402
+_applib.install(C03, quick=(700, 250), thorough=(30000, 6000))
